@@ -23,9 +23,9 @@ sdriver.CHECKS["c10"] = check
 
 
 def refs(field: str, quick: bool) -> List[Tuple]:
-    out = [("gtxn", 0, field), ("gtxn", 1, field), ("gtxns_int", 1, field), ("gtxns_rel", 1, field), ("gtxns_rel", -1, field)]
+    out = [("gtxn", 0, field), ("gtxn", 1, field), ("gtxns_int", 1, field), ("gtxns_rel", 1, field), ("gtxns_rel", -1, field), ("gtxn", 15, field)]
     if not quick:
-        out += [("gtxn", 15, field), ("gtxns_int", 0, field), ("gtxns_int", 15, field), ("gtxns_rel", 2, field), ("gtxns_rel", -2, field), ("gtxns_rel_sw", 1, field)]
+        out += [("gtxns_int", 0, field), ("gtxns_int", 15, field), ("gtxns_rel", 2, field), ("gtxns_rel", -2, field), ("gtxns_rel_sw", 1, field), ("gtxn", 2, field)]
     return out
 
 
@@ -43,7 +43,8 @@ def family(ctx: Ctx) -> List[Tuple[str, str, Dict[str, Any]]]:
         atoms += [tg.Atom(r, op, ("named", "UpdateApplication")) for op in ("==", "!=")]
     for r in refs("Sender", q)[:3]:
         atoms += tg.addr_atoms(r, (("creator",),))
-    idx_checks = [None, tg.Atom(GI, "==", ("int", 0)), tg.Atom(GI, "==", ("int", 1)), tg.Atom(GI, "!=", ("int", 1)), tg.Atom(GS, "==", ("int", 2)), tg.Atom(GI, "<", ("int", 2))]
+    idx_checks = [None, tg.Atom(GI, "==", ("int", 0)), tg.Atom(GI, "==", ("int", 1)), tg.Atom(GS, "==", ("int", 2)), tg.Atom(GI, "!=", ("int", 1)), tg.Atom(GI, "<", ("int", 2)),
+                  tg.Atom(GS, "<=", ("int", 3)), tg.Atom(GS, "==", ("int", 16))]
     if q:
         idx_checks = idx_checks[:4]
     n = 0
